@@ -170,6 +170,13 @@ def expect_stmt(res, rule, f, want_nf, meaning, stmts=None):
     from ..spec import nf_stmt
     pool = stmts if stmts is not None else [s for s in ast.walk(f.node) if isinstance(s, (ast.Assign, ast.AugAssign, ast.Return, ast.Expr))]
     ok = any(_safe_nf(s) == want_nf for s in pool)
+    if not ok and ' = ' in want_nf:
+        # the spec names a local (`t = E`) that the function no longer has: the temporary was inlined into its use.
+        # Accept E itself anywhere in the function (assigned to another target, or as a sub-expression).
+        tname, rhs = want_nf.split(' = ', 1)
+        if re.fullmatch(r'[A-Za-z_]\w*', tname) and not any(isinstance(x, ast.Name) and isinstance(x.ctx, ast.Store) and x.id == tname
+                                                            for x in ast.walk(f.node)):
+            ok = any(_safe_nf_expr(e) == rhs for e in ast.walk(f.node) if isinstance(e, ast.expr))
     res.oblige(rule, f'{f.qualname}: {meaning}', ok, nontrivial=True, sample={'function': f.fullname, 'want': want_nf})
     if not ok:
         res.add(Finding(rule, f.fullname, meaning, f.loc, f'{f.qualname}: {meaning} - no statement with normal form `{want_nf}`', {}))
@@ -825,6 +832,7 @@ CLONE_PAIR_ACCEPTED = [
     ('_validate_array', r'^test '),
     ('covariance_eigvals', r'^eigvals = empty\(\(self\.(nlabels|n_apertures),2\)\)$'),
     ('moments_central', r'_moment_data_cutouts?,'),
+    ('_to_patch', r'^patches = '),
     ('mag', r"^warnings\.simplefilter\('ignore',category=RuntimeWarning\)$"),
 ]
 
